@@ -455,6 +455,23 @@ C16Modify(pre, e, post, increase) ==
                  LET v == LiqEvent(e, "LiquidityDecreased") IN
                    v.amountA \doteq td[1] /\ v.amountB \doteq td[2] /\ v.feeA \doteq TfFee(cA, td[1]) /\ v.feeB \doteq TfFee(cB, td[2]))
 
+(* collect_fees pays out exactly what the position is owed (a claim leaves the vault exactly when it is
+   extinguished - part of C01's "claims can always be paid, nobody extracts value"), and touches nothing
+   else of the position.                                                                          *)
+CollectFees(pre, e, post) ==
+  LET k  == APos(e)
+      x  == pre.pos[k]
+      pl == pre.pool[x.pool]
+      cA == TfCfg(pre, pl.mintA, e.epoch)
+      cB == TfCfg(pre, pl.mintB, e.epoch)
+  IN /\ Sub("vault_pays_owed", (0 -- Delta(pre, post, e.slots.token_vault_a.id)) \doteq x.owedA /\ (0 -- Delta(pre, post, e.slots.token_vault_b.id)) \doteq x.owedB)
+     /\ Sub("owner_receives_owed", Delta(pre, post, e.slots.token_owner_account_a.id) \doteq TfExcluded(cA, x.owedA)
+                                  /\ Delta(pre, post, e.slots.token_owner_account_b.id) \doteq TfExcluded(cB, x.owedB))
+     /\ Sub("owed_reset", post.pos[k].owedA \doteq 0 /\ post.pos[k].owedB \doteq 0)
+     /\ Sub("position_otherwise_untouched", post.pos[k].liq \doteq x.liq /\ post.pos[k].lo = x.lo /\ post.pos[k].up = x.up
+                                            /\ post.pos[k].cpA \doteq x.cpA /\ post.pos[k].cpB \doteq x.cpB)
+     /\ Sub("pool_untouched", post.pool[x.pool] = pl)
+
 (* increase_liquidity_by_token_amounts_v2 (C08 last clause + C16): the liquidity added is the largest whose
    cost fits both (transfer-fee-reduced) maxima; the vault receives exactly that cost; the user pays the
    smallest fee-included amounts, within the maxima; the pool price is inside the caller's bounds.   *)
@@ -850,6 +867,7 @@ IxOK(pre, e, post) ==
      THEN Chk("C11", "set_emissions", C11SetEmissions(pre, e, post)) ELSE TRUE
   /\ IF e.name \in {"collect_reward", "collect_reward_v2"}
      THEN Chk("C11", "collect_reward", NoTransferFee(pre, pre.pos[APos(e)].pool) => C11Collect(pre, e, post)) ELSE TRUE
+  /\ IF e.name \in {"collect_fees", "collect_fees_v2"} THEN Chk("C01", "collect_fees_exact", CollectFees(pre, e, post)) ELSE TRUE
   /\ IF e.name \in {"collect_protocol_fees", "collect_protocol_fees_v2"}
      THEN Chk("C06", "collect_protocol", NoTransferFee(pre, APool(e)) => C06CollectProtocol(pre, e, post))
      ELSE TRUE
